@@ -30,6 +30,8 @@ rm -f "$SIDE"
 VERIF_EVIDENCE_PATH="$SIDE" VERIF_REPLAY_TAG=parallel-loom "$ST"/release/c17p --tier "$TIER" 2>&1 | grep -v 'not reached in this tier'; rc1=${PIPESTATUS[0]}
 VERIF_MERGE_EVIDENCE="parallel_path_under_loom=$SIDE" "$AT"/release/c17 --tier "$TIER"; rc2=$?
 cleanup_scratch
-if [ $rc1 -eq 2 ] || [ $rc2 -eq 2 ]; then exit 2; fi
+# a violation found (and replayed) by either binary is the verdict; any other non-zero status of either
+# binary (2, a panic's 101, a signal) is a machinery failure, never "held"
 if [ $rc1 -eq 1 ] || [ $rc2 -eq 1 ]; then exit 1; fi
+if [ $rc1 -ne 0 ] || [ $rc2 -ne 0 ]; then exit 2; fi
 exit 0
